@@ -62,6 +62,7 @@ func runC26(r *Run) {
 		cfg.BungeePluginChannelEnabled = true
 	})
 	proxyEvents(w)
+	w.capturePanics()
 	names := []string{"Req", "Other", "Third"}
 	homes := []string{"s1", []string{"s1", "s2"}[r.W.Pick(2)], []string{"s2", "s3"}[r.W.Pick(2)]}
 	type recv struct {
@@ -183,6 +184,10 @@ func runC26(r *Run) {
 	if r.CheckDeadlock() {
 		return
 	}
+	if len(w.panics) > 0 {
+		r.Fail("bungee-handler-panicked", "recovered-panic", "a backend's BungeeCord message made the proxy's read loop panic (recovered and logged, the message is dropped): %s", w.panics[0])
+		return
+	}
 	for i, c := range clients {
 		if len(c.JoinGames) == 0 {
 			r.Fail("join-failed", "join", "player %s did not join %s: %v kick %q", names[i], homes[i], clientPhases(w), c.KickText())
@@ -192,6 +197,7 @@ func runC26(r *Run) {
 	// ---- reference (evaluated against the initial placement; requests that change the
 	// placement - Connect, KickPlayer - end the comparison for later requests) ----
 	home := map[string]string{}
+	wantChat := map[string]int{}
 	ipOf := map[string]string{}
 	for i, n := range names {
 		home[n] = homes[i]
@@ -294,6 +300,13 @@ func runC26(r *Run) {
 		case "KickPlayer", "Connect":
 			stop = true // placement changes: later requests are not compared
 		case "Message":
+			// the target is a player name (or ALL): that player gets one chat message
+			t := readUTF()
+			for _, n := range names {
+				if t == "ALL" || t == n {
+					wantChat[n]++
+				}
+			}
 		}
 	}
 	desc := func() string {
@@ -343,6 +356,14 @@ func runC26(r *Run) {
 					sig = "bungee-message-sent-to-a-client"
 				}
 				r.Fail("bungee-unexpected-delivery", sig, "%s received %q which the BungeeCord contract does not call for: %s", g.where, g.data, desc())
+				return
+			}
+		}
+	}
+	if !stop {
+		for _, n := range names {
+			if chatAtClient[n] != wantChat[n] {
+				r.Fail("bungee-delivery-missing-or-wrong", "message", "Message/ALL requests call for %d chat message(s) to %s, its client received %d: %s", wantChat[n], n, chatAtClient[n], desc())
 				return
 			}
 		}
